@@ -263,6 +263,11 @@ func writeGroupIni(cmd *Command, group *Group, namespace string, writer io.Write
 		case reflect.Slice:
 			kind = val.Type().Elem().Kind()
 
+			if kind == reflect.Ptr {
+				// elements that point to strings are strings for quoting
+				kind = val.Type().Elem().Elem().Kind()
+			}
+
 			if val.Len() == 0 {
 				writeOption(writer, oname, kind, "", "", true, option.iniQuote)
 			} else {
@@ -274,6 +279,10 @@ func writeGroupIni(cmd *Command, group *Group, namespace string, writer io.Write
 			}
 		case reflect.Map:
 			kind = val.Type().Elem().Kind()
+
+			if kind == reflect.Ptr {
+				kind = val.Type().Elem().Elem().Kind()
+			}
 
 			if val.Len() == 0 {
 				writeOption(writer, oname, kind, "", "", true, option.iniQuote)
